@@ -200,9 +200,11 @@ Proof. split; intros a qs H; cbn in H; by rewrite lookup_empty in H. Qed.
 Lemma run_addressed P cs d : run P cs = Live d -> addressed d.
 Proof.
   unfold run. intros Hrun.
-  apply (run_live_ind P (λ a b, addressed a -> addressed b)) with (cs := cs) (d := db_init) (d' := d); auto.
-  - intros a c b Hs. by apply step_addressed with (c := c).
-  - apply addressed_init.
+  pose proof (run_live_ind P (λ a b, addressed a -> addressed b)) as Hind.
+  eapply Hind; [| | |exact Hrun|exact addressed_init].
+  - auto.
+  - auto.
+  - intros a c b Hs. exact (step_addressed P a c b Hs).
 Qed.
 
 Lemma reply_addressee P cs d a q : run P cs = Live d -> q ∈ lookup_requests d a -> q_raft q = a.
@@ -210,4 +212,60 @@ Proof.
   intros Hrun Hq. apply run_addressed in Hrun as [_ H2]. unfold lookup_requests in Hq.
   destruct (d_outgoing d !! a) as [qs|] eqn:E; cbn in Hq; [|by apply elem_of_nil in Hq].
   specialize (H2 a qs E). rewrite list.Forall_forall in H2. by apply H2.
+Qed.
+
+(** * History-level statements from the initial state *)
+Lemma run_mb P cs d a : run P cs = Live d -> mb d a = mspec a (mevs P db_init cs).
+Proof. intros H. unfold run in H. rewrite (run_refines P cs db_init d a H). reflexivity. Qed.
+
+(* the reply to a report of [a] after the history [cs] *)
+Lemma reply_latest_batch P cs d r d' v pre qs post :
+  run P cs = Live d -> mevs P db_init cs = pre ++ MBatch qs :: post ->
+  mentions (rp_addr r) qs -> Forall (quiet (rp_addr r)) post ->
+  db_step P d (CReport r) = SOk d' v ->
+  lookup_requests d' (rp_addr r) = for_addr (rp_addr r) qs /\ v = N.of_nat (length (for_addr (rp_addr r) qs)).
+Proof.
+  intros Hrun Hev Hm Hq Hstep.
+  pose proof (run_mb P cs d (rp_addr r) Hrun) as Hmb. rewrite Hev in Hmb.
+  assert (d_requests d !! rp_addr r = Some (for_addr (rp_addr r) qs)) as Hp.
+  { apply (f_equal fst) in Hmb. cbn [mb fst] in Hmb. rewrite Hmb. unfold mspec. by apply pending_is_latest_batch. }
+  apply reply_is_pending in Hstep as [H1 H2]. rewrite Hp in H1, H2. done.
+Qed.
+
+Lemma reply_empty_after_report P cs d r d' v pre post :
+  run P cs = Live d -> mevs P db_init cs = pre ++ MReport (rp_addr r) :: post ->
+  Forall (quiet (rp_addr r)) post ->
+  db_step P d (CReport r) = SOk d' v ->
+  lookup_requests d' (rp_addr r) = [] /\ v = 0.
+Proof.
+  intros Hrun Hev Hq Hstep.
+  pose proof (run_mb P cs d (rp_addr r) Hrun) as Hmb. rewrite Hev in Hmb.
+  assert (d_requests d !! rp_addr r = None) as Hp.
+  { apply (f_equal fst) in Hmb. cbn [mb fst] in Hmb. rewrite Hmb. unfold mspec. by apply pending_none_after_report. }
+  apply reply_is_pending in Hstep as [H1 H2]. rewrite Hp in H1, H2. done.
+Qed.
+
+Lemma reply_empty_initially P cs d r d' v :
+  run P cs = Live d -> Forall (quiet (rp_addr r)) (mevs P db_init cs) ->
+  db_step P d (CReport r) = SOk d' v ->
+  lookup_requests d' (rp_addr r) = [] /\ v = 0.
+Proof.
+  intros Hrun Hq Hstep.
+  pose proof (run_mb P cs d (rp_addr r) Hrun) as Hmb.
+  assert (d_requests d !! rp_addr r = None) as Hp.
+  { apply (f_equal fst) in Hmb. cbn [mb fst] in Hmb. rewrite Hmb. by apply pending_none_initially. }
+  apply reply_is_pending in Hstep as [H1 H2]. rewrite Hp in H1, H2. done.
+Qed.
+
+(* the answer to a REQUESTS lookup (re-read after a lost reply): what the last report of [a] handed over,
+   as long as [a] has not reported again; batches stored meanwhile do not show *)
+Lemma lookup_is_handed P cs d a : run P cs = Live d -> lookup_requests d a = default [] (mspec a (mevs P db_init cs)).2.
+Proof. intros H. pose proof (run_mb P cs d a H) as Hmb. apply (f_equal snd) in Hmb. cbn [mb snd] in Hmb. unfold lookup_requests. by rewrite Hmb. Qed.
+
+Lemma handed_stable a m evs : Forall (λ e, e <> MReport a) evs -> (mspec_from a m evs).2 = m.2.
+Proof.
+  revert m. induction evs as [|e evs IH]; intros m H; [done|].
+  inversion H as [|? ? He H']; subst. unfold mspec_from in *. cbn [foldl]. rewrite (IH _ H').
+  destruct e as [qs|b|]; cbn; [by destruct (bool_decide _)| |done].
+  destruct (decide (b = a)) as [->|Hne]; [done|]. by rewrite bool_decide_eq_false_2.
 Qed.
